@@ -76,7 +76,7 @@ OPS_BY_PROP = {
     'C11': ['move_phase', 'read_flow', 'read_total', 'set_flow', 'set_flow', 'set_total', 'set_T', 'set_P', 'set_phase',
             'set_phases', 'link_with', 'unlink', 'proxy', 'flow_proxy', 'copy_like', 'copy', 'restart',
             'reset_cache', 'view', 'scale', 'mix_from', 'bad_units', 'churn', 'reduce_phases', 'empty',
-            'split_to', 'check_views', 'check_views', 'bad_link', 'empty_negatives'],
+            'split_to', 'check_views', 'check_views', 'bad_link', 'empty_negatives', 'fault_then_total'],
     'C02': ['set_energy'] * 5 + ['mix_energy'] * 5 + ['separate_energy'] * 2 + ['bad_energy'] + ['set_T', 'set_T', 'set_P', 'set_flow',
             'set_flow', 'scale', 'read_prop', 'read_prop', 'proxy', 'copy', 'restart', 'link_with', 'unlink',
             'flow_proxy', 'reset_cache', 'set_phase'],
@@ -89,7 +89,7 @@ OPS_BY_PROP = {
             'restart', 'pickle_obj', 'set_flow', 'set_flow', 'set_flow', 'set_T', 'set_P', 'set_phase', 'scale',
             'empty', 'set_total', 'mix_from', 'split_to', 'separate_out', 'read_prop', 'read_flow', 'save_data',
             'restore_data', 'set_phases', 'churn', 'bad_link'],
-    'C14': ['read_prop'] * 8 + BACKGROUND_MUTATORS * 2 + ['reset_thermo'] + ['move_phase', 'move_phase', 'set_phase', 'set_phases', 'mix_from', 'split_to',
+    'C14': ['read_prop'] * 8 + BACKGROUND_MUTATORS * 2 + ['reset_thermo', 'unit_basis'] + ['move_phase', 'move_phase', 'set_phase', 'set_phases', 'mix_from', 'split_to',
             'copy_like', 'link_with', 'unlink', 'proxy', 'flow_proxy', 'view', 'restart', 'reset_cache',
             'reduce_phases', 'copy', 'separate_out', 'copy_flow'],
 }
@@ -699,6 +699,18 @@ class StreamWorld(BaseWorld):
         nm = self.names(r)
         if not nm:
             return None
+        if self.prop == 'C14' and r.random() < 0.12:
+            # flows given as mole fractions: a whole-row write whose total is EXACTLY 1.0 (dyadic shares), so that
+            # a later write of the same kind changes the composition only
+            single = self.names(r, kind='single')
+            if single:
+                n = self.pk(single[0]).n
+                if n >= 2:
+                    shares = [0.5, 0.25, 0.125, 0.125][:n] if n >= 4 else ([0.5, 0.25, 0.25][:n] if n == 3 else [0.75, 0.25])
+                    vals = shares + [0.0] * (n - len(shares))
+                    r.shuffle(vals)
+                    return {'stream': single[0], 'view': 'mol', 'key': {'phase': None, 'ids': '...', 'seq': 'tuple'},
+                            'values': vals}
         key = self.gen_key(r, nm[0], for_write=True)
         if key is None:
             return None
@@ -759,6 +771,31 @@ class StreamWorld(BaseWorld):
         cur = self.pkg_of[nm[0]]
         to = {'A': 'Ax', 'Ax': 'A', 'C': 'Cx', 'Cx': 'C'}[cur]
         return {'stream': nm[0], 'to': to}
+
+    def gen_unit_basis(self, r):
+        """flows given as mole fractions (total exactly 1.0): write, read a property, write another composition
+        with the same total, read again"""
+        nm = self.names(r, kind='single')
+        if not nm:
+            return None
+        n = self.pk(nm[0]).n
+        if n < 2:
+            return None
+        shares = [0.5, 0.25, 0.125, 0.125][:n] if n >= 4 else ([0.5, 0.25, 0.25][:n] if n == 3 else [0.75, 0.25])
+        a = shares + [0.0] * (n - len(shares))
+        b = list(a)
+        r.shuffle(a)
+        r.shuffle(b)
+        return {'stream': nm[0], 'first': a, 'second': b,
+                'props': [r.choice(['H', 'S', 'Cn', 'V', 'rho', 'mu', 'kappa', 'h', 'C']) for _ in range(2)]}
+
+    def gen_fault_then_total(self, r):
+        """read a total volumetric flow, change T, let ONE property read fail (model error), read the total again"""
+        nm = self.names(r, nonempty=True)
+        if not nm:
+            return None
+        return {'stream': nm[0], 'T': r.choice(T_ALPHABET), 'failing': r.choice(['F_vol', 'F_vol', 'V', 'rho']),
+                'exc': r.choice(['RuntimeError', 'ValueError', 'FloatingPointError'])}
 
     def gen_empty_negatives(self, r):
         return {'stream': self.names(r)[0]}
@@ -1266,6 +1303,11 @@ class StreamWorld(BaseWorld):
         return not any(m.get('view_of') and m['view_of'][0] == n and not m.get('detached')
                        for m in self.meta.values())
 
+    def pre_unit_basis(self, ev):
+        n = ev['stream']
+        return (not self.is_multi(n) and len(ev['first']) == self.pk(n).n == len(ev['second'])
+                and abs(sum(ev['first']) - 1.0) == 0.0 and abs(sum(ev['second']) - 1.0) == 0.0)
+
     def pre_bad_link(self, ev):
         a, b = ev['stream'], ev['other']
         if a == b or self.is_view_locked(a) or self.is_view_locked(b):
@@ -1462,9 +1504,9 @@ class StreamWorld(BaseWorld):
         op = ev['op']
         st = ev.get('stream')
         W = {'f': set(), 't': set(), 'p': set()}
-        if op in ('set_flow', 'set_total', 'scale', 'imul', 'empty', 'churn', 'empty_negatives', 'reuse_key'):
+        if op in ('set_flow', 'set_total', 'scale', 'imul', 'empty', 'churn', 'empty_negatives', 'reuse_key', 'unit_basis'):
             W['f'].add(st)
-        elif op == 'set_T' or op == 'set_P' or op == 'copy_thermal_condition':
+        elif op == 'set_T' or op == 'set_P' or op == 'copy_thermal_condition' or op == 'fault_then_total':
             W['t'].add(st)
         elif op == 'move_phase':
             W['f'].add(st)
@@ -2013,8 +2055,8 @@ class StreamWorld(BaseWorld):
                     return 'ok-undefined-volume'
         want = sum(float(np.sum(x)) for x in rows.values()) * factor
         got = float(r[1])
-        if self.prop == 'C11' and view != 'vol':
-            if not close(got, want):
+        if self.prop == 'C11':
+            if not close(got, want, RTOL if view != 'vol' else 1e-7):
                 self.fail('total', f'{name}: total {view} flow read {got} ({units}), views sum to {want}',
                           {'event': ev, 'state': proj.to_json()})
         return ['ok', fl(got)]
@@ -2106,6 +2148,36 @@ class StreamWorld(BaseWorld):
             self.fail('reset-thermo-state', f'{name}: changing the property package changed flows, phases, T or P',
                       {'event': ev, 'before': before.to_json(), 'after': after.to_json()})
         return 'ok'
+
+    def do_unit_basis(self, ev):
+        name = ev['stream']
+        key = {'phase': None, 'ids': '...', 'seq': 'tuple'}
+        out = []
+        for vals, pname in ((ev['first'], ev['props'][0]), (ev['second'], ev['props'][1])):
+            self.do_set_flow({'op': 'set_flow', 'stream': name, 'view': 'mol', 'key': key, 'values': list(vals)})
+            out.append(self.do_read_prop({'op': 'read_prop', 'stream': name, 'name': pname}))
+            out.append(self.do_read_prop({'op': 'read_prop', 'stream': name, 'name': 'H'}))
+        return ['ok', str(out)[:80]]
+
+    def do_fault_then_total(self, ev):
+        name = ev['stream']
+        s = self.streams[name]
+        out = [self.do_read_total({'op': 'read_total', 'stream': name, 'view': 'vol'})]
+        self.do_set_T({'op': 'set_T', 'stream': name, 'T': ev['T']})
+        plan = {'kind': 'model_error', 'site': 'V', 'nth': 1, 'exc': ev['exc']}
+        with faults.armed(plan) as p_:
+            try:
+                getattr(s, ev['failing'])
+                out.append('returned')
+            except Violation:
+                raise
+            except Exception as e:
+                out.append('raised:' + type(e).__name__)
+        if p_['fired']:
+            self.stats['fault:model_error'] += 1
+        out.append(self.do_read_total({'op': 'read_total', 'stream': name, 'view': 'vol'}))
+        out.append(self.do_read_total({'op': 'read_total', 'stream': name, 'view': 'vol', 'units': 'L/min'}))
+        return ['ok', str(out)[:100]]
 
     def do_empty_negatives(self, ev):
         """empty_negative_flows(): negative entries become zero, everything else (and every view) stays"""
